@@ -84,8 +84,11 @@ def rule_options(chk, ci, classes):
             continue
         rel, cls = classes[cname]
         params = ctor_params(ci, rel, cls)
-        kws = dict((k.arg, compact(k.value)) for k in ctor.keywords)
+        from verif_static import norm as N2
+        ldefs = N2.local_defs([cs])
+        kws = dict((k.arg, compact(N2.inline(k.value, ldefs))) for k in ctor.keywords)
         for k, want in sorted(COMMON_KW.items()):
+            want = compact(N2.inline(ast.parse(want, mode='eval').body, ldefs))
             chk.decide(kws.get(k) == want, 'nnps-constructor-agreement', '%s:%s' % (nm, k), node=ctor, file=APP, func='Application._configure_solver',
                        detail_bad='%s(%s=%s): every algorithm must receive %s=%s, otherwise runs differ by algorithm' % (cname, k, kws.get(k), k, want),
                        detail_ok='%s=%s' % (k, want))
@@ -281,15 +284,28 @@ def rule_reorder(chk):
     sol = M.py(SOL)
     solve = M.find_method(sol, 'Solver', 'solve')
     calls = [c for c in M.calls(solve) if M.call_name(c) == 'self.reorder_particles']
-    guards = [compact(M.enclosing(c, (ast.If,)).test) for c in calls if M.enclosing(c, (ast.If,)) is not None]
-    chk.decide(len(calls) == 2 and 'reorder_freq>0' in guards and any('self.count%reorder_freq==0' in g for g in guards), 'reordering', 'schedule',
+    from verif_static import norm as N
+    gtests = [M.enclosing(c, (ast.If,)).test for c in calls if M.enclosing(c, (ast.If,)) is not None]
+    guards = [compact(x) for x in gtests]
+
+    def has(t, text):
+        return any(N.same(x, text) for x in ast.walk(t) if isinstance(x, (ast.Compare, ast.BoolOp)))
+    chk.decide(len(calls) == 2 and any(N.same(t, 'reorder_freq > 0') for t in gtests) and any(has(t, 'self.count % reorder_freq == 0') for t in gtests), 'reordering', 'schedule',
                node=solve, file=SOL, func='Solver.solve', detail_bad='re-ordering guards: %s' % guards, detail_ok='once at start and every reorder_freq iterations')
     rp = M.find_method(sol, 'Solver', 'reorder_particles')
-    gs = C.build_cfg(rp)
-    loops = [l for l in ast.walk(rp) if isinstance(l, ast.For) and any(M.call_name(c) == 'self.nnps.spatially_order_particles' for c in M.calls(l))]
-    upd = [n.id for n in gs.nodes if n.ast is not None and isinstance(n.ast, ast.Expr) and M.call_name(n.ast.value) == 'self.nnps.update']
-    ln = gs.node_of(loops[0]) if loops else None
-    chk.decide(ln is not None and bool(upd) and gs.must_pass(ln, gs.exit, upd), 'reordering', 'neighbours-rebuilt-after-permutation', node=rp, file=SOL,
+    from verif_static import paths as PT
+    rpaths = PT.enumerate_paths(M.docstring_stripped(rp.body))
+    okr = False
+    badr = None
+    for p_ in rpaths:
+        cl = PT.calls_on(p_)
+        perm = [i for i, c, cal, env in cl if cal == 'self.nnps.spatially_order_particles']
+        upd = [i for i, c, cal, env in cl if cal == 'self.nnps.update']
+        if perm:
+            okr = True
+            if not [i for i in upd if i > max(perm)]:
+                badr = badr or p_
+    chk.decide(okr and badr is None, 'reordering', 'neighbours-rebuilt-after-permutation', node=rp, file=SOL,
                func='Solver.reorder_particles',
                detail_bad='after the particles are permuted the neighbour structures are not rebuilt: an evaluation that does not refresh them '
                           '(update_nnps=False, initial_acceleration) uses pre-permutation indices', detail_ok='self.nnps.update() after the permutation loop')
@@ -297,7 +313,9 @@ def rule_reorder(chk):
     fn = M.find_method(t, 'NNPS', 'spatially_order_particles')
     cs = [c for c in M.calls(fn) if isinstance(c.func, ast.Attribute) and c.func.attr == 'c_align_array']
     loop = M.enclosing(cs[0], (ast.For,)) if cs else None
-    ok = len(cs) == 1 and loop is not None and compact(loop.iter) == 'pa.properties.items()' and compact(cs[0].args[0]) == 'indices'
+    gsi = [c for c in M.calls(fn) if (M.call_name(c) or '').endswith('get_spatially_ordered_indices') and len(c.args) == 2]
+    ok = len(cs) == 1 and loop is not None and compact(loop.iter) == 'pa.properties.items()' and len(gsi) == 1 and isinstance(gsi[0].args[1], ast.Name) and \
+        compact(cs[0].args[0]) == gsi[0].args[1].id and gsi[0].lineno < cs[0].lineno
     chk.decide(ok, 'reordering', 'one-permutation-for-all-properties', node=fn, file=NB, func='NNPS.spatially_order_particles',
                detail_bad='properties are not all permuted by the one index list (see C17 for the full rule set)', detail_ok='single list applied to every property')
 
@@ -331,6 +349,13 @@ def main(chk):
     c03.rule_top(chk, MT3.parse_template(c03.TPL))
     # the binning cell size covers every array, re-read at every update (rule shared with C01)
     c01.rule_cell_size(chk)
+    # tree searches prune with the same bound the other algorithms' stencils guarantee (rule shared with C01)
+    c01.rule_octree(chk)
+    # threads never share scratch storage: per-thread slices of the pair vectors are disjoint (rule shared with C02)
+    spec2 = importlib.util.spec_from_file_location('c02mod', os.path.join(os.path.dirname(os.path.abspath(__file__)), 'c02.py'))
+    c02 = importlib.util.module_from_spec(spec2)
+    spec2.loader.exec_module(c02)
+    c02.rule_scratch(chk)
     # informational: classes not selectable from the command line
     for cname, (rel, cls) in sorted(classes.items()):
         if cname in selectable or cname in ('NNPS', 'NNPSBase') or not cname.endswith('NNPS'):
